@@ -32,6 +32,7 @@ FRAME_STEPS = {
     'orphan-cont': lambda m: [SFrame(CONT, b'zz')],
     'two': lambda m: [SFrame(TEXT, b'b'), SFrame(PING, b'q')],
     'ping-ping': lambda m: [SFrame(PING, b'1'), SFrame(PING, b'2')],
+    'ping-then-bad': lambda m: [SFrame(PING, b'z1'), SFrame(PING, b'z2'), SFrame(0xB, b'')],
     'ping-text-close': lambda m: [SFrame(PING, b'z'), SFrame(TEXT, b'c'), SFrame(CLOSE, ref_ws.close_payload(1000, b''))],
 }
 STARTS_DATA = ('frag-text', 'frag-bin', 'text', 'text-euro', 'binary', 'empty-text', 'two', 'ping-text-close')
